@@ -252,23 +252,8 @@ def run(ctx):
               "the outcome handler can run before/while stages (and their onException handlers) run", construct=f"{RUNTEST}:RunTest._run_prepared_result::dispatch-after-core")
 
     # ------------------------------------------------------------------ eager snapshot
-    cc = module_function(ctx, TESTCASE, "_copy_content")
-    p0 = cc.args.args[0].arg
-    eager = [s for s in cc.body if isinstance(s, ast.Assign) and any(isinstance(c, ast.Call) and dotted(c.func) == f"{p0}.iter_bytes" for c in ast.walk(s.value))
-             and isinstance(s.value, ast.Call) and dotted(s.value.func) in ("list", "tuple")]
-    nested = [f for f in cc.body if isinstance(f, FUNC_TYPES)]
-    lazy_in_nested = any(isinstance(c, ast.Call) and dotted(c.func) == f"{p0}.iter_bytes" for f in nested for c in ast.walk(f))
-    ctx.check("R-EAGER-SNAPSHOT", "_copy_content evaluates iter_bytes() eagerly into a list", cc, len(eager) == 1 and not lazy_in_nested,
-              "the content is not read when details are gathered (a later change or removal of the source would change the reported bytes)",
-              construct=f"{TESTCASE}:_copy_content::eager")
-    rets = [r for r in cc.body if isinstance(r, ast.Return)]
-    ok = False
-    if len(rets) == 1 and isinstance(rets[0].value, ast.Call) and (dotted(rets[0].value.func) or "").endswith("Content") and len(rets[0].value.args) == 2:
-        a0, a1 = rets[0].value.args
-        ok = dotted(a0) == f"{p0}.content_type" and nested and dotted(a1) == nested[0].name and eager and any(
-            isinstance(r, ast.Return) and dotted(r.value) == eager[0].targets[0].id for r in ast.walk(nested[0]))
-    ctx.check("R-EAGER-SNAPSHOT", "_copy_content keeps the content type and returns the snapshot bytes", cc, ok,
-              "the copy does not carry the original content_type with the snapshot bytes", construct=f"{TESTCASE}:_copy_content::returns")
+    from .common import check_copy_content_snapshot
+    check_copy_content_snapshot(ctx, "R-EAGER-SNAPSHOT")
     gcalls = [c for c in ast.walk(gd) if isinstance(c, ast.Call) and dotted(c.func) == "_copy_content"]
     ctx.check("R-EAGER-SNAPSHOT", "gather_details stores copies", gd, len(gcalls) == 1 and all(isinstance(w.value, ast.Call) and dotted(w.value.func) == "_copy_content" for w in writes),
               "gather_details stores the live content object instead of a snapshot", construct=f"{TESTCASE}:gather_details::copies")
